@@ -69,6 +69,17 @@ ScriptCross == << [op |-> "cif_create", cif |-> "c1"],
                   [op |-> "loop_add_packet", loop |-> "l1", packet |-> << <<"_y", "s1">> >>],
                   [op |-> "set_value", cont |-> "h2", name |-> "_y", v |-> "s1"],
                   [op |-> "create_loop", cont |-> "h2", category |-> "k", names |-> <<"_x">>] >>
+\* a scalar loop that lost its only packet (items left, row counter kept) next to an ordinary loop with an open iterator:
+\* a container-level call that fails part-way in there has a partial effect to undo inside the iterator's transaction
+ScriptStuckBusy == << [op |-> "cif_create", cif |-> "c1"],
+                      [op |-> "create_block", cif |-> "c1", code |-> "a"],
+                      [op |-> "create_loop", cont |-> "h1", category |-> "", names |-> <<"_x", "_y">>],
+                      [op |-> "loop_add_packet", loop |-> "l1", packet |-> << <<"_x", "s1">> >>],
+                      [op |-> "remove_item", cont |-> "h1", name |-> "_x"],
+                      [op |-> "loop_free", loop |-> "l1"],
+                      [op |-> "create_loop", cont |-> "h1", category |-> "k", names |-> <<"_z">>],
+                      [op |-> "loop_add_packet", loop |-> "l1", packet |-> << <<"_z", "s1">> >>],
+                      [op |-> "get_packets", loop |-> "l1"] >>
 MCCSlots2 == <<"h1", "h2">>
 MCLSlots2 == <<"l1", "l2">>
 MCCSlots1 == <<"h1">>
